@@ -85,6 +85,9 @@ type scriptPool struct {
 	peerReqs  []pool.PeerRequest
 	connects  int
 	connErr   error
+	// latency: how long (virtual time, controlled executions only) the pool takes to answer a
+	// keep-alive
+	latency time.Duration
 }
 
 func (p *scriptPool) Host(ctx context.Context, r pool.HostRequest) (*pool.HostResponse, error) {
@@ -104,6 +107,9 @@ func (p *scriptPool) Update(ctx context.Context, r pool.UpdateRequest) (*pool.Up
 	p.updates = append(p.updates, r)
 	if p.updateErr != nil {
 		return nil, p.updateErr
+	}
+	if p.latency > 0 && vsched.Active() {
+		vsched.Sleep(p.latency)
 	}
 	cp := *p.update
 	cp.InvalidPeers = append([]string{}, p.update.InvalidPeers...)
